@@ -46,12 +46,21 @@ Definition changed_lines (names : list bytes) : bytes :=
 
 Definition payload (n : nat) : bytes := map (fun i => N.of_nat i mod 251) (seq 0 n).
 
-Definition picture_reply (pic : bytes) (mime : option bytes) (limit off : N) : bytes :=
+(* the header lines of a picture reply come in MPD's order, unless the song's URI asks for another one (a newer server, a proxy):
+   "hdr1..." = type before size, "hdr2..." = a foreign line between size and type, "hdr3..." = a foreign line first *)
+Definition hdr_variant (uri : bytes) : N :=
+  if is_prefix (b "hdr1") uri then 1 else if is_prefix (b "hdr2") uri then 2 else if is_prefix (b "hdr3") uri then 3 else 0.
+
+Definition picture_reply_v (v : N) (pic : bytes) (mime : option bytes) (limit off : N) : bytes :=
   let size := N.of_nat (length pic) in
   let chunk := firstn (N.to_nat (N.min limit (size - off))) (skipn (N.to_nat off) pic) in
-  field_line (b "size") (render_dec size) ++
-  match mime with Some m => field_line (b "type") m | None => [] end ++
+  let sz := field_line (b "size") (render_dec size) in
+  let ty := match mime with Some m => field_line (b "type") m | None => [] end in
+  let extra := field_line (b "format") (b "x") in
+  (if v =? 1 then ty ++ sz else if v =? 2 then sz ++ extra ++ ty else if v =? 3 then extra ++ sz ++ ty else sz ++ ty) ++
   b "binary: " ++ render_dec (N.of_nat (length chunk)) ++ [LF] ++ chunk ++ [LF].
+
+Definition picture_reply (pic : bytes) (mime : option bytes) (limit off : N) : bytes := picture_reply_v 0 pic mime limit off.
 
 Definition limit_at (cf : sconf) (off : N) : N :=
   match sc_limits cf with
@@ -111,14 +120,14 @@ Definition exec_cmd (cf : sconf) (idx : N) (line : bytes) : bytes + bytes :=
             | None => inl []
             | Some (pic, mime) =>
               if N.of_nat (length pic) <? o then inr (ack_line 2 idx name (b "Bad file offset"))
-              else inl (picture_reply pic mime (limit_at cf o) o)
+              else inl (picture_reply_v (hdr_variant uri) pic mime (limit_at cf o) o)
             end
           else
             match sc_pic_file cf with
             | None => if sc_file_ack cf then inr (ack_line 50 idx name (b "No file exists")) else inl []
             | Some pic =>
               if N.of_nat (length pic) <? o then inr (ack_line 2 idx name (b "Bad file offset"))
-              else inl (picture_reply pic None (limit_at cf o) o)
+              else inl (picture_reply_v (hdr_variant uri) pic None (limit_at cf o) o)
             end
         | _ => inr (ack_line 2 idx name (b "wrong number of arguments"))
         end
